@@ -181,12 +181,14 @@ def main():
                 "name": "sa",
                 "path": "/verif/sa",
                 "serves_properties": have,
-                "kind_free_text": "repository-specific static analyser on python ast: class model with C3 MRO and synthetic classes, statement CFG, forward dataflow (must-follow / dominance), effect and alias analysis, provenance, table extraction; nothing is executed",
+                "kind_free_text": "repository-specific static analyser on python ast: class model with C3 MRO and synthetic classes, normalised function views (private helpers expanded in place, hoisted constants substituted, local aliases expanded), statement CFG, forward dataflow (must-follow / dominance), three-valued path conditions over atoms, denotation of HDF5 handle expressions, effect and alias analysis, provenance, table extraction by symbolic evaluation; nothing is executed",
             }
         ],
         "checks": checks,
         "notes": (
-            "All checks are static (python ast over /repo/geoh5py, parsed on every run). Exit 0 = held (KNOWN-FINDING lines for "
+            "All checks are static (python ast over /repo/geoh5py, parsed on every run). Rules decide on normalised code (DESIGN.md §11) and are "
+            "tested both ways: 860 mutants incl. 60 red-team seeds must be reported, 441 generated twins and 80+ kept behaviour-preserving refactorings must stay silent. "
+            "Exit 0 = held (KNOWN-FINDING lines for "
             "recorded genuine defects, /verif/known_findings.json), 1 = VIOLATION, 2 = ANALYSIS-ERROR (anchor lost / floor not met). "
             "Repairs of genuine defects in /repo are separate 'fix:' commits: " + "; ".join(commits)
         ),
